@@ -15,7 +15,7 @@ func init() {
 	register("C07",
 		"Structural necessary conditions of C07 decided from /repo's SSA: (render-total) every index/slice expression in the table renderer and the footnote collector is discharged from dominating facts by the zone-domain bounds engine, so no refgroup nesting depth or name can crash the report; (count) reference_count receives exactly ADD{1}, RegisterReference is called for every root that is a reference regardless of Walk(), exactly one root is collected per reference delivered with walk/groups from the same Categorize call, and each group symbol bumps its tally exactly once; (argv) the reference listing is `for-each-ref` with only the --format argument; (ignored) the `ignored` symbol is appended iff the reference is not walked, and a group whose own filter rejects the name returns (false, no symbols) before collecting any; (symbols) v2 symbols are `refgroup.<symbol>`, indentation is the dot count of the symbol, groups absent from the tally are skipped. Not decided: the recursive tally semantics (`other` buckets, union of subgroups) over arbitrary forests.",
 		[]string{"git for-each-ref lists every reference once", "field-based heap model"},
-		ruleC07RenderTotal, ruleC07Count, ruleC07Argv, ruleC07Ignored, ruleC07Symbols, ruleC07Subgroups, ruleC07EachGroup)
+		ruleC07RenderTotal, ruleC07Count, ruleC07Argv, ruleC07Ignored, ruleC07Symbols, ruleC07Subgroups, ruleC07EachGroup, ruleC07LastDot, ruleC07IgnoredGroup)
 	register("C08",
 		"Structural necessary conditions of C08 decided from /repo's SSA: (pairing) every witness-path update is control-dependent on the `true` result of the AdjustMax* call on the paired value field (pairing table = the documented JSON v1 keys), passes the function's own object id and the object kind of the metric, and forgets the previous path before requesting the new one; (siblings) in the report's item list every item cites the path field paired with its value field; (none) with NameStyleNone the resolver hands out no path, Footnote is always empty, hash style cites the object id and full style the path description; (refcount) a parent link of a sought path is only ever set to a path on which a reference was taken on that very path (requested, i.e. its seeker count incremented or initialised to 1), so a parent cannot be dropped from the table while a child still points at it. Not decided: that a printed description resolves with git rev-parse (depends on git's revision grammar and run-time strings).",
 		[]string{"the enumeration delivers each object's id together with its size (C01.effects provenance)"},
@@ -1102,4 +1102,130 @@ func ruleC08Refcount(c *Ctx) {
 func isBasicString(t types.Type) bool {
 	b, ok := t.Underlying().(*types.Basic)
 	return ok && b.Kind() == types.String
+}
+
+func ruleC07LastDot(c *Ctx) { lastDotRule(c, "C07.hierarchy") }
+
+// ruleC07IgnoredGroup: references that match no refgroup are tallied under
+// "Ignored". The function that builds the grouper must create that group on
+// every success path, or only depend on the top-level filter as it is AFTER
+// the default (all / no references) has been filled in — a test made before
+// the defaulting drops the Ignored tally exactly when explicit ROOTs are
+// given without any reference option.
+func ruleC07IgnoredGroup(c *Ctx) {
+	var stores []*ssa.Store
+	for _, f := range c.ModFns {
+		if pkgOf(f) != modPath+"/internal/refopts" {
+			continue
+		}
+		allInstrs(f, func(in ssa.Instruction) {
+			st, ok := in.(*ssa.Store)
+			if !ok {
+				return
+			}
+			fa, ok := st.Addr.(*ssa.FieldAddr)
+			if !ok || !isPtrToNamed(fieldOfAddr(fa).Var.Type(), modPath+"/sizes", "RefGroup") || isNilConst(st.Val) {
+				return
+			}
+			// the field Categorize falls back to when nothing matched: by role, a *sizes.RefGroup field of the grouper itself
+			if n := namedOf(fieldOfAddr(fa).Struct); n == nil || !strings.Contains(strings.ToLower(n.Obj().Name()), "grouper") {
+				return
+			}
+			stores = append(stores, st)
+		})
+	}
+	if len(stores) == 0 {
+		c.notDecided("C07.ignored", "group-exists", token.NoPos, "no store of the grouper's fallback (*sizes.RefGroup) field found")
+		return
+	}
+	for _, st := range stores {
+		f := st.Parent()
+		name := fnName(f)
+		succ := map[*ssa.BasicBlock]bool{}
+		for _, ret := range returnsOf(f) {
+			ok := true
+			for i := 0; i < f.Signature.Results().Len(); i++ {
+				if isErrorType(f.Signature.Results().At(i).Type()) {
+					for _, v := range c.resultValues(ret, i) {
+						if !isNilConst(v) {
+							ok = false
+						}
+					}
+				}
+			}
+			if ok {
+				succ[ret.Block()] = true
+			}
+		}
+		ec := c.newEventCounter(func(in ssa.Instruction) int {
+			if in == ssa.Instruction(st) {
+				return 1
+			}
+			return 0
+		}, false)
+		r := ec.region(f.Blocks[0], 0, succ, nil)
+		if r.Min == 1 && r.Max == 1 {
+			c.hold("C07.ignored", "group-exists:"+name, st.Pos(), "the Ignored group is created on every success path")
+			continue
+		}
+		// conditional: every guard must test the top-level filter as it is after defaulting
+		bad := ""
+		for _, fct := range factsAt(st.Block()) {
+			// only guards whose other branch still reaches a success return matter
+			ib := fct.If.Block()
+			other := ib.Succs[0]
+			if fct.Truth {
+				other = ib.Succs[1]
+			}
+			relevant := false
+			for b := range reachable(other) {
+				if succ[b] && !st.Block().Dominates(b) {
+					relevant = true
+				}
+			}
+			if !relevant {
+				continue
+			}
+			cond, _ := normCond(fct.Cond, fct.Truth)
+			cmp, ok := isCmp(cond, token.EQL, token.NEQ)
+			var ld *ssa.UnOp
+			if ok {
+				for _, side := range []ssa.Value{cmp.X, cmp.Y} {
+					if u, isU := side.(*ssa.UnOp); isU && u.Op == token.MUL {
+						if _, isF := u.X.(*ssa.FieldAddr); isF {
+							ld = u
+						}
+					}
+				}
+			}
+			if ld == nil {
+				bad = "a condition that is not a test of the top-level filter"
+				break
+			}
+			fv := fieldOfAddr(ld.X.(*ssa.FieldAddr)).Var
+			// a store to the same field reachable after the load => the test saw the pre-default value
+			reach := reachable(ld.Block())
+			for b := range reach {
+				for _, in := range b.Instrs {
+					s2, isSt := in.(*ssa.Store)
+					if !isSt {
+						continue
+					}
+					fa2, isFA := s2.Addr.(*ssa.FieldAddr)
+					if !isFA || fieldOfAddr(fa2).Var != fv {
+						continue
+					}
+					if b == ld.Block() && instrIndex(s2) < instrIndex(ld) {
+						continue
+					}
+					bad = "the value of " + fv.Name() + " read before its default is filled in (" + c.pos(s2.Pos()) + ")"
+				}
+			}
+		}
+		if bad == "" {
+			c.hold("C07.ignored", "group-exists:"+name, st.Pos(), "created under a test of the filter's final value")
+		} else {
+			c.violate("C07.ignored", "group-exists:"+name, st.Pos(), name, "the Ignored group is created only under "+bad+": when no reference option is given (explicit ROOT arguments) unmatched references are tallied nowhere")
+		}
+	}
 }
